@@ -195,8 +195,18 @@ def check_stream_case(case):
     cuts = case["cuts"]
     mods = dict(qartod=dict(vprobe_test=dict(code=3), spike_test=dict(suspect_threshold=1, fail_threshold=5)))
     bounds = [None] + [S.T0 + c * S.DAY for c in cuts] + [None]
-    ctxs = [dict(start=bounds[i], end=bounds[i + 1], streams={"v": mods, "w": dict(qartod=dict(vprobe_test=dict(code=4)))}) for i in range(len(bounds) - 1)]
+    codes = (3, 1, 4, 9)
+    ctxs = [dict(start=bounds[i], end=bounds[i + 1],
+                 streams={"v": dict(qartod=dict(vprobe_test=dict(code=codes[i % 4]), spike_test=dict(suspect_threshold=1, fail_threshold=5))),
+                          "w": dict(qartod=dict(vprobe_test=dict(code=codes[(i + 1) % 4])))}) for i in range(len(bounds) - 1)]
+
+    def ctx_of(t):
+        return next(i for i in range(len(bounds) - 1) if (bounds[i] is None or t >= bounds[i]) and (bounds[i + 1] is None or t < bounds[i + 1]))
+    want = {"v:vprobe_test": [codes[ctx_of(t) % 4] for t in tab["time"]], "w:vprobe_test": [codes[(ctx_of(t) + 1) % 4] for t in tab["time"]]}
     cfgd = S.make_config(ctxs)
+    if case.get("pre"):
+        # an earlier run, in the same process, of the same configuration on another table of the same size
+        alpha.call(S.run_frontend, case["fe"], S.table(n, case["z"], case["ll"], not case.get("shuffled", False)), S.make_config(ctxs))
     res = alpha.call(S.run_frontend, case["fe"], tab, cfgd)
     if isinstance(res, alpha.Raised):
         return [V(f"{PROP}|stream:{case['fe']}|symptom=raises:{res.name}", f"{case['fe']} raised {res.name}: {res.msg}", None, repr(res))], True, None, 0, 1
@@ -234,12 +244,17 @@ def check_stream_case(case):
             vs.append(V(f"{PROP}|stream:{case['fe']}|{form}|axes={axes}|symptom=raises:{g.name}", f"collect_results({form}) of a {case['fe']} run raised {g.name}: {g.msg}", None, repr(g)))
         elif canon(b) != canon(g):
             vs.append(V(f"{PROP}|stream:{case['fe']}|{form}|symptom=order-dependent", f"collect_results({form}) depends on the order of the yielded ContextResults", canon(b), canon(g)))
-    # rows: every row is covered by exactly one context: flags of vprobe must be 3 everywhere for v, 4 for w
+    # rows: every row is covered by exactly one context and must carry the code that context's probe produces
     if not isinstance(got_d, alpha.Raised):
         cd = canon_dict(got_d)
-        for key, code in (("v:vprobe_test", 3), ("w:vprobe_test", 4)):
-            if cd.get(key) != [code] * n:
-                vs.append(V(f"{PROP}|stream:{case['fe']}|dict|symptom=rows-misplaced", f"{key} collected as {cd.get(key)}, every row is covered by one context", [code] * n, cd.get(key)))
+        for key, exp in want.items():
+            if cd.get(key) != exp:
+                vs.append(V(f"{PROP}|stream:{case['fe']}|dict|symptom=rows-misplaced", f"{key} collected as {cd.get(key)}; every row must carry the flag of the one context covering it", exp, cd.get(key)))
+    if not isinstance(got_l, alpha.Raised):
+        cl0 = canon_list(got_l)
+        for key, exp in want.items():
+            if key in cl0 and cl0[key]["results"] != exp:
+                vs.append(V(f"{PROP}|stream:{case['fe']}|list|symptom=rows-misplaced", f"{key} collected (list form) as {cl0[key]['results']}", exp, cl0[key]["results"]))
     if not isinstance(got_l, alpha.Raised):
         cl = canon_list(got_l)
         for key, col in (("v:vprobe_test", "v"), ("w:vprobe_test", "w")):
@@ -274,6 +289,7 @@ def tasks(tier):
         ts.append(("double", n, axes))
     for axes in ("all", "none"):
         ts.append(("bigseq", 30, axes))
+        ts.append(("bigseq", 1500, axes))
     for fe in ("pandas:range", "pandas:shift", "numpy:dict", "xarray:coord", "netcdf"):
         for z, ll in ((True, True), (False, False)):
             ts.append(("stream", fe, z, ll))
@@ -301,12 +317,16 @@ def run_task(task, acc):
         _, n, axes = task
 
         def gen():
-            cuts = [(0, 10), (10, 25), (25, 30), (0, 0), (0, 30)]
-            evs = [dict(w=list(w), keys=[list(k)]) for w in cuts for k in KEYS]
-            for seq in itertools.permutations([e for e in evs if e["w"] in ([0, 10], [10, 25], [25, 30]) and e["keys"][0][0] == "s1"], 6):
-                pass
+            a, b = n // 3, (5 * n) // 6
+            cuts = [(0, a), (a, b), (b, n), (0, 0), (0, n)]
             part = [dict(w=list(w), keys=[list(KEYS[0])]) for w in cuts[:3]]
-            other = [dict(w=[0, 30], keys=[list(KEYS[2])]), dict(w=[5, 20], keys=[list(KEYS[1])]), dict(w=[0, 0], keys=[list(KEYS[0])])]
+            other = [dict(w=[0, n], keys=[list(KEYS[2])]), dict(w=[n // 6, (2 * n) // 3], keys=[list(KEYS[1])]), dict(w=[0, 0], keys=[list(KEYS[0])])]
+            if n > 1000:
+                # four / five windows tiling a long series (the same key in every window)
+                for edges_ in ([0, n // 5, n // 2, n - 300, n], [0, 1, 1000, 1001, 1024, n]):
+                    tiles = [dict(w=[edges_[i], edges_[i + 1]], keys=[list(KEYS[0])]) for i in range(len(edges_) - 1)]
+                    for p_ in itertools.permutations(tiles):
+                        yield dict(n=n, axes=axes, events=list(p_))
             for p_ in itertools.permutations(part):
                 for o in other:
                     for pos in range(4):
@@ -339,6 +359,13 @@ def run_task(task, acc):
                     yield dict(kind="stream", fe=fe, n=n, z=z, ll=ll, cuts=cuts, perm=list(p))
                 if fe != "xarray:var":
                     yield dict(kind="stream", fe=fe, n=n, z=z, ll=ll, cuts=cuts, perm=list(range(nres)), shuffled=True)
+            for n, cuts in ((300, [100, 200]), (1500, [300, 700, 1200])):
+                nres = (len(cuts) + 1) * 3
+                base = list(range(nres))
+                for p in (base, base[::-1], base[5:] + base[:5]):
+                    for sh in (False, True):
+                        yield dict(kind="stream", fe=fe, n=n, z=z, ll=ll, cuts=cuts, perm=p, shuffled=sh)
+                        yield dict(kind="stream", fe=fe, n=n, z=z, ll=ll, cuts=cuts, perm=p, shuffled=sh, pre=True)
         run_cases(acc, gen(), check_case)
 
 
